@@ -5,7 +5,7 @@
    that expression (`ctx_deadline`).  Times are milliseconds from the moment the call is issued.  A shot that never
    returns is an explicit outcome (`TsNever`), not an absent one.  Executable definitions only. *)
 From Coq Require Import List ZArith NArith Bool.
-From PV Require Import Model.Robust.
+From PV Require Import Model.Robust Model.RobustGrpcScn.
 Import ListNotations.
 
 (* the context handed to InvokeRpc *)
@@ -82,5 +82,25 @@ Fixpoint instance_timed (conv : N -> Z) (cx : ctx_expr) (conf_timeout : N) (cs :
   | c :: r => match grpc_shoot_timed conv cx conf_timeout c with
               | TsNever => ([], 0%N, true)
               | TsReturned t s => let '(ss, el, stuck) := instance_timed conv cx conf_timeout r in (s :: ss, (t + el)%N, stuck)
+              end
+  end.
+
+(* The grpc/scenario gun (shootStep has its own copy of the same code, Model/RobustGrpcScn.v) over time: the calls of one
+   scenario in order; a call the target is silent on costs the timeout and does NOT end the scenario (a failed call is
+   not a step error); unknown method / unfit payload end it. *)
+Definition gstep_of (conv : N -> Z) (conf_timeout : N) (c : gcall) : gstep :=
+  mk_gstep true (match c with GcNoMethod => false | _ => true end) (match c with GcBadPayload => false | _ => true end)
+           (match result_of conv conf_timeout c with GrpcStatus code => code | _ => 0%Z end) None [].
+
+Fixpoint scenario_timed (conv : N -> Z) (cx : ctx_expr) (conf_timeout : N) (cs : list gcall) : list sample * N * bool :=
+  match cs with
+  | [] => ([], 0%N, false)
+  | c :: r => match grpc_shoot_timed conv cx conf_timeout c with
+              | TsNever => ([], 0%N, true)
+              | TsReturned t s =>
+                  match c with
+                  | GcCall _ => let '(ss, el, stuck) := scenario_timed conv cx conf_timeout r in (s :: ss, (t + el)%N, stuck)
+                  | _ => ([s], t, false)
+                  end
               end
   end.
